@@ -73,3 +73,9 @@ mod tests {
         Ok(())
     }
 }
+
+#[cfg(noodles_verif)]
+#[doc(hidden)]
+pub fn __verif_write_position(dst: &mut Vec<u8>, position: Option<Position>) -> Result<(), EncodeError> {
+    write_position(dst, position)
+}
